@@ -23,7 +23,7 @@ import traceback
 HERE = os.path.dirname(os.path.abspath(__file__))
 sys.path.insert(0, os.path.dirname(HERE))
 
-from harness.core import common, lean  # noqa: E402
+from harness.core import common, lean, scenarios  # noqa: E402
 from harness.core.common import InternalError, Outcome  # noqa: E402
 
 
@@ -114,12 +114,18 @@ def run_check(prop, tier, replay_file):
     if replay_file:
         with open(replay_file) as f:
             payload = json.load(f)
-        out = mod.replay(ctx, payload)
+        case = payload.get('case') or {}
+        if isinstance(case, dict) and case.get('scenario'):
+            o = scenarios.run_scenarios(prop, False, only=case['scenario'])
+            out = {'case': case, 'violations': [c['what'] for c in o.concrete], 'fails': bool(o.concrete)}
+        else:
+            out = mod.replay(ctx, payload)
         print(json.dumps(out, indent=1, default=repr))
         return 1 if out.get('fails') else 0
 
     # 3. correspondence + monitors on the real code
     outcome = mod.run(ctx)
+    outcome.merge(scenarios.run_scenarios(prop, tier == 'quick'))
     if outcome.diffs:
         d = outcome.diffs[0]
         broken.append(f'correspondence model/implementation differs ({len(outcome.diffs)} case(s)); '
